@@ -9,6 +9,7 @@
 #include "cmd_mem.h"
 #include "cmd_fileio.h"
 #include "cmd_det.h"
+#include "cmd_util.h"
 
 static void register_all()
 {
@@ -21,4 +22,5 @@ static void register_all()
   register_mem();
   register_fileio();
   register_det();
+  register_util();
 }
